@@ -742,6 +742,10 @@ class StrategyBase(Node):
                 # Declare a bankruptcy
                 self.bankrupt = True
                 self.flatten()
+                # the liquidation changed cash and positions: redo the update
+                # on the liquidated tree instead of finishing this one with
+                # pre-liquidation numbers (value, child weights)
+                return self.update(date, data, inow)
 
         # update data if this value is different or
         # if now has changed - avoid all this if not since it
